@@ -1,7 +1,9 @@
 import Anysystem.Props.C09
+import Anysystem.Proofs.StagedThms
 #print axioms Anysystem.applyAlt_sameShape
 #print axioms Anysystem.sendLocal_sameShape
 #print axioms Anysystem.crashNode_sameShape
 #print axioms Anysystem.setState_getState
 #print axioms Anysystem.searchStep_restores
 #print axioms Anysystem.runImpl_restores
+#print axioms Anysystem.runFromStates_restores
